@@ -119,6 +119,117 @@ theorem parseSign_spec (c : Cfg) (np rq : Bool) (ip ms : String) (b : Bytes) (h 
     subst hres; simp; omega
   · cases rq <;> simp [pure, Except.pure] at hres <;> subst hres <;> simp [h]
 
+/-- `increment_count` touches only the counts -/
+theorem incCount_spec (c : Cfg) (k : Comp) (b : Bytes) :
+    (b.incCount c k).slc = b.slc ∧ (b.incCount c k).index = b.index := by
+  unfold Bytes.incCount
+  split
+  · exact ⟨rfl, rfl⟩
+  · cases k <;> exact ⟨rfl, rfl⟩
+
+/-- `parse_digits` (release build, any format / feature set / component): whenever it returns, the buffer is
+unchanged, the cursor moved forward and is still inside the buffer, and it consumed at least one byte per digit. -/
+theorem parseDigitsLoop_spec (c : Cfg) (k : Comp) (radix : Nat) (hd : c.debug = false) :
+    ∀ (fuel : Nat) (b b' : Bytes) (ds : List Nat), Bytes.Valid b →
+      parseDigitsLoop c k radix fuel b = .ok (ds, b') →
+      b'.slc = b.slc ∧ Bytes.Valid b' ∧ b.index + ds.length ≤ b'.index := by
+  intro fuel
+  induction fuel with
+  | zero => intro b b' ds _ h; simp [parseDigitsLoop] at h
+  | succ n ih =>
+    intro b b' ds hv h
+    unfold parseDigitsLoop at h
+    cases hp : peek c k b with
+    | error e => simp [hp, bind, Except.bind] at h
+    | ok r =>
+      obtain ⟨v, b1⟩ := r
+      have hs := peek_spec c k b b1 v hv hp
+      simp only [hp, bind, Except.bind] at h
+      cases v with
+      | none =>
+        simp only [pure, Except.pure, Except.ok.injEq, Prod.mk.injEq] at h
+        obtain ⟨rfl, rfl⟩ := h
+        exact ⟨hs.1, hs.2.2.2.2.2.1, by simpa using hs.2.2.2.2.1⟩
+      | some ch =>
+        have hlt := peek_some_in_range c k b b1 ch hv hp
+        simp only at h
+        cases hdg : charToDigit ch radix with
+        | none =>
+          simp only [hdg, pure, Except.pure, Except.ok.injEq, Prod.mk.injEq] at h
+          obtain ⟨rfl, rfl⟩ := h
+          exact ⟨hs.1, hs.2.2.2.2.2.1, by simpa using hs.2.2.2.2.1⟩
+        | some d =>
+          simp only [hdg, iterStep, stepUnchecked_release c _ b1 hd] at h
+          cases hrec : parseDigitsLoop c k radix n (Bytes.incCount c k { b1 with index := b1.index + 1 }) with
+          | error e => simp [hrec] at h
+          | ok r2 =>
+            obtain ⟨ds2, b2⟩ := r2
+            simp only [hrec, pure, Except.pure, Except.ok.injEq, Prod.mk.injEq] at h
+            obtain ⟨rfl, rfl⟩ := h
+            have hi := incCount_spec c k { b1 with index := b1.index + 1 }
+            have hv2 : Bytes.Valid (Bytes.incCount c k { b1 with index := b1.index + 1 }) := by
+              unfold Bytes.Valid; rw [hi.1, hi.2]; simp only; omega
+            have := ih _ _ _ hv2 hrec
+            rw [hi.1, hi.2] at this
+            refine ⟨by rw [this.1]; exact hs.1, this.2.1, ?_⟩
+            have h1 := hs.2.2.2.2.1
+            have h2 := this.2.2
+            simp only [List.length_cons] at *
+            omega
+
+/-- … and its fuel is sufficient: with `fuel > slc.length - index` the loop never reports `fault "fuel"`. -/
+theorem parseDigitsLoop_no_fuel_fault (c : Cfg) (k : Comp) (radix : Nat) (hd : c.debug = false) :
+    ∀ (fuel : Nat) (b : Bytes), Bytes.Valid b → b.slc.length - b.index < fuel →
+      parseDigitsLoop c k radix fuel b ≠ .error (.fault "fuel") := by
+  intro fuel
+  induction fuel with
+  | zero => intro b _ h; omega
+  | succ n ih =>
+    intro b hv hf
+    unfold parseDigitsLoop
+    cases hp : peek c k b with
+    | error e =>
+      have : c.skip k = .unreachable := (peek_error_iff c k b).mp ⟨e, hp⟩
+      simp [peek, this] at hp
+      subst hp
+      simp [bind, Except.bind]
+    | ok r =>
+      obtain ⟨v, b1⟩ := r
+      have hs := peek_spec c k b b1 v hv hp
+      simp only [bind, Except.bind]
+      cases v with
+      | none => simp [pure, Except.pure]
+      | some ch =>
+        have hlt := peek_some_in_range c k b b1 ch hv hp
+        simp only
+        cases hdg : charToDigit ch radix with
+        | none => simp [pure, Except.pure]
+        | some d =>
+          simp only [iterStep, stepUnchecked_release c _ b1 hd]
+          have hi := incCount_spec c k { b1 with index := b1.index + 1 }
+          have hv2 : Bytes.Valid (Bytes.incCount c k { b1 with index := b1.index + 1 }) := by
+            unfold Bytes.Valid; rw [hi.1, hi.2]; simp only; omega
+          have hf2 : (Bytes.incCount c k { b1 with index := b1.index + 1 }).slc.length
+              - (Bytes.incCount c k { b1 with index := b1.index + 1 }).index < n := by
+            rw [hi.1, hi.2]; simp only
+            have h1 := hs.2.2.2.2.1
+            have hlen : b1.slc.length = b.slc.length := by rw [hs.1]
+            omega
+          have := ih _ hv2 hf2
+          cases hrec : parseDigitsLoop c k radix n (Bytes.incCount c k { b1 with index := b1.index + 1 }) with
+          | error e =>
+            simp only [hrec] at this
+            intro hcontra
+            simp only [Except.error.injEq] at hcontra
+            exact this (by rw [hcontra])
+          | ok r2 => simp [pure, Except.pure]
+
+/-- `parse_digits` with the fuel `parse.rs`'s model gives it -/
+theorem parseDigits_spec (c : Cfg) (k : Comp) (radix : Nat) (hd : c.debug = false) (b b' : Bytes) (ds : List Nat)
+    (hv : Bytes.Valid b) (h : parseDigits c k radix b = .ok (ds, b')) :
+    b'.slc = b.slc ∧ Bytes.Valid b' ∧ b.index + ds.length ≤ b'.index :=
+  parseDigitsLoop_spec c k radix hd _ b b' ds hv h
+
 /-- `take_n` keeps both the sub-buffer and the advanced iterator valid -/
 theorem takeN_valid (c : Cfg) (k : Comp) (n : Nat) (b sub b' : Bytes) (h : Bytes.Valid b)
     (ht : takeN c k n b = some (sub, b')) : Bytes.Valid sub ∧ Bytes.Valid b' ∧ b.index ≤ b'.index := by
